@@ -136,7 +136,30 @@ G["C14"] = [
   "PowerPC load / store with update and RA = 0 (invalid form accepted by the decoder, `9e 60 0b 4a`: STBU R19, (0xB4A)): the semantics take .args of the constant address and raise "
   "AttributeError; LHBRX with RA = 0 (`7e 00 06 2c`) fails an assertion"),
 ]
-TARGET = {"C14": "C14/lift", "C15": "C15/asm", "C16": "C16/parse"}
+G["C17"] = [
+ ("C17-x86-64-invalid-opcodes", "x86", lambda m, k: (k == "ref-invalid" and m != "MOVNTI") or (k == "length-differs" and m == "LDS"),
+  "miasm decodes, in 64-bit mode, opcodes that are invalid there: AAA (37) AAS (3f) DAA (27) DAS (2f) AAM (d4) AAD (d5) INTO (ce), PUSH / POP of ES CS SS DS (06 07 0e 16 17 1e 1f), "
+  "LDS / LES (c5 / c4, VEX prefixes in 64-bit mode: `c5 6d 69` is decoded as a 3-byte LDS where the reference sees a 4-byte VEX instruction) and the 0x82 alias of the 0x80 group "
+  "(`82 fb 24` CMP BL, 0x24); GNU objdump marks all of them (bad)"),
+ ("C17-x86-modrm-register-only", "x86", lambda m, k: m in ("MOVNTI", "MOV-CR"),
+  "ModRM forms that only exist with one kind of operand: MOV to / from a control register ignores the mod field (`0f 20 56 d4` is MOV ESI, CR2, 3 bytes; miasm decodes a 4-byte "
+  "`MOV DWORD PTR [ESI + 0xFFFFFFD4], CR2`); MOVNTI requires a memory destination (`0f c3 ed` is invalid; miasm decodes MOVNTI BP, BP)"),
+ ("C17-aarch64-reserved-encodings", "aarch64", lambda m, k: True,
+  "the AArch64 decoder accepts reserved encodings llvm-mc (all extensions on) rejects: shifted-register forms of 32-bit ADD / SUB / AND / ORR / EOR / BIC ... with a shift amount >= 32 "
+  "(`ea ea 1c 0b` little endian ADD W10, W23, W28 LSL 0x3A), ROR on ADD / SUB / CMP, extended-register forms with a shift > 4, 32-bit BFM / SBFM / UBFM / EXTR with immediates >= 32, "
+  "MOVZ / MOVN / MOVK Wd with LSL 32 / 48, LDTR / STTR of SIMD registers, CASP with an odd register"),
+ ("C17-arm-coprocessor-and-unpredictable", "arm", lambda m, k: True,
+  "ARM encodings llvm-mc rejects for ARMv7-A and ARMv8-A and miasm decodes: generic coprocessor instructions on coprocessors 10 / 11 (the VFP / NEON space: `ec 42 93 2d` big endian "
+  "LDCCS p2 ... and LDC / STC / MCR / MRC / CDP forms), LDRD / STRD with an odd first register (`da 68 ed 70` little endian LDRDVC R6, [SP], 0x8A!), conditional BKPT, STRH with "
+  "SP as post-indexed register offset and write-back"),
+ ("C17-armt-reserved", "armt", lambda m, k: True,
+  "Thumb-2 encodings llvm-mc rejects: `19 f2 7b 21` decoded as ADDS R1, R9, 0x27B (ADDW has no S bit: bit 20 must be 0), `0f f8 fd 4c` STRB R4, [PC, 0xFFFFFF03] (store with Rn = PC)"),
+ ("C17-mips32-fp-compare-formats", "mips32", lambda m, k: True,
+  "MIPS floating-point compares with a format that has no compare instructions: `32 6d 84 46` little endian C.EQ.W FCC5, F13, F4, `46 3b fc 39` C.NGLE.D with a reserved bit set, C.NGLE.L"),
+ ("C17-ppc32-eciwx", "ppc32", lambda m, k: True,
+  "PowerPC `7c ef da 6c` ECIWX R7, R15, R27: rejected by llvm-mc 14 (external control facility not modelled)"),
+]
+TARGET = {"C17": "C17/reference", "C14": "C14/lift", "C15": "C15/asm", "C16": "C16/parse"}
 
 
 def main(pid):
